@@ -154,14 +154,15 @@ type ContractFile struct {
 
 // PkgContract: package-level frame (C12 F1, C17 P4).
 type PkgContract struct {
-	ReadOnly      map[string]bool     // package-level variables that may be read (never written) after init
-	InitOnly      map[string]bool     // functions that run at init / configuration time only
-	FieldWriters  map[string][]string // Type.field -> functions allowed to store to it
-	ReadOnlyUses  map[string]bool     // callees a read-only global may be passed to
-	RecoverPoints []string            // entry points that must recover from panics (C14)
-	DecodeEntries []string            // documented decode entry points: no reflective panic may escape them (C14)
-	PointerFields []string            // Type.field that must have a pointer type (an address kept as a key keeps its object alive)
-	Line          int
+	ReadOnly         map[string]bool     // package-level variables that may be read (never written) after init
+	InitOnly         map[string]bool     // functions that run at init / configuration time only
+	FieldWriters     map[string][]string // Type.field -> functions allowed to store to it
+	FieldWriterProps map[string][]string
+	ReadOnlyUses     map[string]bool // callees a read-only global may be passed to
+	RecoverPoints    []string        // entry points that must recover from panics (C14)
+	DecodeEntries    []string        // documented decode entry points: no reflective panic may escape them (C14)
+	PointerFields    []string        // Type.field that must have a pointer type (an address kept as a key keeps its object alive)
+	Line             int
 }
 
 func parseContractFile(path string) (*ContractFile, error) {
@@ -826,11 +827,25 @@ func (pc *PkgContract) add(word, rest string) error {
 	case "pointerfields":
 		pc.PointerFields = append(pc.PointerFields, items()...)
 	case "fieldwriters":
+		// fieldwriters [C04,C05] Type.field fn...   (function keys contain no blanks; default tag C17)
+		props := []string{"C17"}
+		if strings.HasPrefix(rest, "[") {
+			j := strings.Index(rest, "]")
+			props = nil
+			for _, p := range strings.Split(rest[1:j], ",") {
+				props = append(props, strings.TrimSpace(p))
+			}
+			rest = strings.TrimSpace(rest[j+1:])
+		}
 		f := strings.Fields(rest)
 		if len(f) < 2 {
-			return fmt.Errorf("fieldwriters Type.field fn...")
+			return fmt.Errorf("fieldwriters [tags] Type.field fn...")
 		}
 		pc.FieldWriters[f[0]] = append(pc.FieldWriters[f[0]], f[1:]...)
+		if pc.FieldWriterProps == nil {
+			pc.FieldWriterProps = map[string][]string{}
+		}
+		pc.FieldWriterProps[f[0]] = props
 	default:
 		return fmt.Errorf("unknown package clause %q", word)
 	}
